@@ -86,9 +86,17 @@ def confirm(sid):
     return res
 
 if __name__ == "__main__":
-    ids = sys.argv[1:] or sorted(os.listdir(os.path.join(ROOT, "seeded")))
+    ids = [a for a in sys.argv[1:] if not a.startswith("--")] or sorted(os.listdir(os.path.join(ROOT, "seeded")))
     for sid in ids:
         if not os.path.isdir(os.path.join(ROOT, "seeded", sid)): continue
+        cj = os.path.join(ROOT, "seeded", sid, "confirm.json")
+        if os.path.exists(cj) and "--force" not in sys.argv:
+            try:
+                old = json.load(open(cj))
+                if old.get("suite_ok") and old.get("demo_with") == "FAIL" and old.get("demo_without") == "pass":
+                    continue
+            except Exception:
+                pass
         r = confirm(sid)
         json.dump(r, open(os.path.join(ROOT, "seeded", sid, "confirm.json"), "w"), indent=1)
         print(sid, {k: r.get(k) for k in ("applies", "builds", "demo_without", "demo_with", "suite_ok")}, flush=True)
